@@ -252,6 +252,16 @@ func errGuardedNonNil(v ssa.Value, b *ssa.BasicBlock) bool {
 			return true
 		}
 	}
+	// the same access path written out again (x.err tested, x.err returned)
+	if _, isFA := ld.X.(*ssa.FieldAddr); isFA {
+		for _, bb := range b.Parent().Blocks {
+			for _, ins := range bb.Instrs {
+				if l2, ok := ins.(*ssa.UnOp); ok && l2.Op == token.MUL && l2 != ld && sameAddr(l2.X, ld.X) && nonNilGuarded(l2, b) {
+					return true
+				}
+			}
+		}
+	}
 	return false
 }
 
